@@ -17,6 +17,7 @@ import (
 	"math/rand"
 	"os"
 	"path/filepath"
+	"regexp"
 	"sort"
 	"strings"
 	"sync"
@@ -82,6 +83,7 @@ func TestCheck(t *testing.T) {
 	ctxs := sweepContexts()
 	nSweep := len(ctxs) * r.N(1, 4)
 	r.Require("inputs:raw-sweep", int64(nSweep)*1000)
+	r.Require("consensus_envelope_shapes", 100)
 
 	// W1 for values whose SSZ encoding starts like a JSON document: one case per variant
 	nPrefix := len(vars) * r.N(1, 3)
@@ -1067,6 +1069,8 @@ func sweepCase(c *kit.Case, rg *rig, dc decodeCtx) {
 	}
 	if dc.Signed {
 		cs.wireShapes(dc.Duty)
+	} else if dc.Duty.Valid() {
+		cs.consEnvelopeShapes(dc.Duty)
 	}
 	if cs.cons != nil {
 		cs.cons.close()
@@ -1078,6 +1082,31 @@ func sweepCase(c *kit.Case, rg *rig, dc decodeCtx) {
 		c.NonTrivial(kit.Hash("sweep", dc.Signed, dc.Duty, c.Rng.Int63()))
 	}
 }
+
+// consEnvelopeShapes sends ill-shaped but validly signed consensus envelopes to the real handler.
+func (cs *caseState) consEnvelopeShapes(typ core.DutyType) {
+	c, r := cs.c, cs.c.R
+	if cs.cons == nil {
+		cw, err := cs.rg.newConsWire()
+		if err != nil {
+			r.Inconclusive("case %d: consensus component: %v", c.Idx, err)
+			return
+		}
+		cs.cons = cw
+	}
+	n := cs.cons.envelopeShapes(typ, func(shape string, pi *panicInfo) {
+		if pi == nil {
+			return
+		}
+		c.Violation("consensus-handler/proto-envelope/"+strings.ReplaceAll(digitsRe.ReplaceAllString(shape, "N"), " ", "-"),
+			fmt.Sprintf("the real consensus stream handler panicked (%s at %s) on a validly signed envelope with %s (duty %s); libp2p runs it in a goroutine without recover", pi.Value, pi.Site, shape, typ),
+			map[string]any{"shape": shape, "duty": typ.String(), "panic": pi})
+		r.Seen("crash_sites", pi.Site)
+	})
+	r.Count("consensus_envelope_shapes", int64(n))
+}
+
+var digitsRe = regexp.MustCompile(`[0-9]+`)
 
 // wireShapes sends ill-formed protobuf envelopes and raw frames to the real parsigex handler.
 func (cs *caseState) wireShapes(typ core.DutyType) {
